@@ -34,6 +34,8 @@ def worker(job):
             return dict(cfg=cfg, problems=problems)
         symbolise(w, model)
         N = spatial_for(spec)
+        if spec.get("_orient"):
+            N = tuple(N[i] for i in spec["_orient"])  # another member of the orbit of a non-cubic box
         flags = tuple(spec.get("is_torus", (True,) * D))
         in_sig = [(tuple(t), c) for t, c in spec["input"]]
         out_sig = [(tuple(t), c) for t, c in spec["output"]]
@@ -231,6 +233,19 @@ def run(ctx):
         if cls == "UNet":
             sm.update(num_downsamples=1, num_conv=1)
         specs.append(sm)
+    if th:
+        # a non-cubic box and its axis-permuted copies form one orbit: the generators are checked on every member
+        extra = []
+        for sp in specs:
+            N0 = spatial_for(sp)
+            if len(set(N0)) > 1 and all(sp.get("is_torus", [True] * sp["D"])):
+                seen = {tuple(N0)}
+                for perm in itertools.permutations(range(sp["D"])):
+                    Np = tuple(N0[i] for i in perm)
+                    if Np not in seen:
+                        seen.add(Np)
+                        extra.append(dict(sp, _orient=list(perm)))
+        specs += extra
     jobs = [(ctx.repo, s) for s in specs]
     by = {}
     for job, r in ctx.pairs(worker, jobs, chunk=1):
